@@ -98,6 +98,9 @@ type PathSample struct {
 	Inputs    []Input
 	Covers    []string
 	Notes     []string `json:",omitempty"`
+	Stdout    string   `json:",omitempty"`
+	Stderr    string   `json:",omitempty"`
+	Panic     string   `json:",omitempty"`
 }
 
 type Options struct {
@@ -112,6 +115,9 @@ type Options struct {
 	StopOnFirst   bool
 	Params        map[string]string
 	Replay        []Input // concrete replay of inputs (no solver)
+	RealRoots     []string
+	Args          []string
+	KeepOutput    bool
 }
 
 type Result struct {
@@ -675,6 +681,13 @@ func (ex *Explorer) runPath(s *solver, prefix []byte) {
 	}
 	if needSample {
 		sample = &PathSample{Decisions: decString(c.decisions), End: end, Inputs: model, Notes: c.notes}
+		if ex.opt.KeepOutput && c.env != nil {
+			sample.Stdout = chunksString(c.env.stdout)
+			sample.Stderr = chunksString(c.env.stderr)
+		}
+		if end == "panic" && len(c.viol) > 0 {
+			sample.Panic = c.viol[len(c.viol)-1].Message
+		}
 		for l := range c.covers {
 			sample.Covers = append(sample.Covers, l)
 		}
@@ -764,4 +777,16 @@ func panicMessage(e interface{}) string {
 		return p
 	}
 	return fmt.Sprintf("%v", e)
+}
+
+func chunksString(l []value) string {
+	var b strings.Builder
+	for _, c := range l {
+		if s, ok := c.(string); ok {
+			b.WriteString(s)
+		} else {
+			b.WriteString(toString(c))
+		}
+	}
+	return b.String()
 }
